@@ -88,6 +88,53 @@ func fatReleaseFns(w *World) []*releaseFn {
 			out = append(out, rf)
 		}
 	}
+	// wrappers: a function that hands one of its own parameters (or a value derived from it) to a release function's
+	// chain-head parameter releases that chain too (allocateSpace -> truncateChain after a split into phases)
+	for changed, round := true, 0; changed && round < 4; round++ {
+		changed = false
+		byFn := map[*ssa.Function]*releaseFn{}
+		for _, rf := range out {
+			byFn[rf.fn] = rf
+		}
+		for _, fn := range w.ModFns {
+			if !inFatPkg(w, fn) || fn.Blocks == nil {
+				continue
+			}
+			for _, c := range calls(fn, false, func(c ssa.CallInstruction) bool { return byFn[c.Common().StaticCallee()] != nil }) {
+				callee := byFn[c.Common().StaticCallee()]
+				if callee.fn == fn {
+					continue
+				}
+				for idx := range callee.params {
+					if idx >= len(c.Common().Args) {
+						continue
+					}
+					p := w.prov(c.Common().Args[idx], provOpts{throughExternal: true, followCalls: true})
+					for _, rt := range p.Roots {
+						if rt.Kind != RParam || rt.Param.Parent() != fn {
+							continue
+						}
+						for i, q := range fn.Params {
+							if q != rt.Param {
+								continue
+							}
+							rf := byFn[fn]
+							if rf == nil {
+								rf = &releaseFn{fn: fn, params: map[int]bool{}}
+								byFn[fn] = rf
+								out = append(out, rf)
+								changed = true
+							}
+							if !rf.params[i] {
+								rf.params[i] = true
+								changed = true
+							}
+						}
+					}
+				}
+			}
+		}
+	}
 	return out
 }
 
@@ -163,6 +210,18 @@ func fromListingEntry(w *World, v ssa.Value) (bool, string) {
 				case *ssa.Extract:
 					if _, ok := y.Tuple.(*ssa.Next); ok {
 						return true
+					}
+					return hasIndex(y.Tuple, d+1)
+				case *ssa.Call:
+					// a lookup helper: what it returns is an element of a listing
+					if g := y.Call.StaticCallee(); g != nil && w.fnSet[g] && g.Blocks != nil {
+						for _, ret := range returnsOf(g) {
+							for i := range ret.Results {
+								if hasIndex(retResult(ret, i), d+1) {
+									return true
+								}
+							}
+						}
 					}
 				}
 				return false
@@ -787,38 +846,77 @@ func c08WholeTableAndDistinctBackups(w *World, r *Report) {
 }
 
 func c08Flush(w *World, r *Report) {
+	// entries: the exported API of the FAT FileSystem/File types and the constructors; helpers that mutate the table
+	// and leave the flush to their caller are summarised into their callers
+	var entries []*ssa.Function
 	for _, fn := range w.ModFns {
-		if !inFatPkg(w, fn) || len(calls(fn, false, isSetCluster)) == 0 {
+		if !inFatPkg(w, fn) || fn.Blocks == nil {
 			continue
 		}
-		// constructors populate a fresh table and flush it through WriteFat as well
-		rule := &flowRule{w: w}
-		rule.inline = func(callee *ssa.Function, site ssa.CallInstruction) bool { return false }
-		rule.step = func(ins ssa.Instruction, s int) (uint64, bool) {
-			c, ok := ins.(ssa.CallInstruction)
-			if !ok {
-				return 0, false
+		if fn.Signature.Recv() == nil {
+			if fn.Name() == "Create" || fn.Name() == "Read" {
+				entries = append(entries, fn)
 			}
+			continue
+		}
+		rn := namedOf(fn.Signature.Recv().Type())
+		if rn != nil && token.IsExported(fn.Name()) && (rn.Obj().Name() == "FileSystem" || rn.Obj().Name() == "File") {
+			entries = append(entries, fn)
+		}
+	}
+	sort.Slice(entries, func(i, j int) bool { return entries[i].String() < entries[j].String() })
+	// can the entry reach a FAT mutation at all? explored with constant actuals folded (readDirWithMkdir(p, false)
+	// never makes directories), so that pure readers are not entries of this rule
+	reachesSet := func(e *ssa.Function) bool {
+		found := false
+		rc := &Reach{w: w, enter: func(f *ssa.Function) bool { return inFatPkg(w, f) }}
+		rc.sink = func(c ssa.CallInstruction, ev *evaluator) string {
 			if isSetCluster(c) {
-				return 1 << 1, true
+				found = true
 			}
-			if methodCallSig(c, "WriteFat", 0, 1) {
-				return 1 << 0, true
-			}
+			return ""
+		}
+		rc.Run(e, nil)
+		return found
+	}
+	rule := &flowRule{w: w, maxDepth: 8}
+	rule.inline = func(callee *ssa.Function, site ssa.CallInstruction) bool {
+		return inFatPkg(w, callee) && !methodCallSig(site, "WriteFat", 0, 1)
+	}
+	rule.step = func(ins ssa.Instruction, s int) (uint64, bool) {
+		c, ok := ins.(ssa.CallInstruction)
+		if !ok {
 			return 0, false
 		}
-		res := rule.run(fn, 1, 0)
+		if isSetCluster(c) {
+			return 1 << 1, true
+		}
+		if methodCallSig(c, "WriteFat", 0, 1) {
+			return 1 << 0, true
+		}
+		return 0, false
+	}
+	for _, e := range entries {
+		if !reachesSet(e) {
+			continue
+		}
+		res := rule.run(e, 1, 0)
 		bad := 0
 		for ret, m := range res.successReturns() {
 			if m&(1<<1) != 0 {
 				bad++
-				r.Fail("C08-b", fnName(fn), "FAT mutation is flushed", w.relFile(instrPos(ret)), "a success return is reachable after SetCluster without WriteFat(): the on-disk FAT copies lag the in-memory table", trailTo(w, ret.Block())...)
+				r.Fail("C08-b", fnName(e), "FAT mutation is flushed", w.relFile(instrPos(ret)), "a success return is reachable after SetCluster without WriteFat(): the on-disk FAT copies lag the in-memory table", trailTo(w, ret.Block())...)
 			}
 		}
 		if bad == 0 {
-			r.Ok("C08-b", fnName(fn), "FAT mutation is flushed", w.relFile(fn.Pos()), "")
+			r.Ok("C08-b", fnName(e), "FAT mutation is flushed", w.relFile(e.Pos()), "")
 		}
-		// the flush error is propagated
+	}
+	// the flush error is propagated, wherever the flush is called
+	for _, fn := range w.ModFns {
+		if !inFatPkg(w, fn) || fn.Blocks == nil {
+			continue
+		}
 		for _, cc := range calls(fn, false, func(c ssa.CallInstruction) bool { return methodCallSig(c, "WriteFat", 0, 1) }) {
 			if c, ok := cc.(*ssa.Call); ok {
 				ok2, why := errorIsChecked(c)
@@ -956,7 +1054,16 @@ func c01ScanStart(w *World, r *Report) {
 	as := w.Method("filesystem/fat12", "FileSystem", "allocateSpace")
 	var hintFields []*types.Var
 	n := 0
-	for _, c := range calls(as, false, func(c ssa.CallInstruction) bool { return callMethodName(c) == "ClusterValue" }) {
+	// the scan may live in a phase helper of the allocator
+	scope := w.reachableFrom([]*ssa.Function{as}, func(f *ssa.Function) bool { return inFatPkg(w, f) })
+	var scan []ssa.CallInstruction
+	for _, f := range sortedFns(scope) {
+		if f.Name() == "getClusterList" {
+			continue // a chain walk, not a scan for free clusters
+		}
+		scan = append(scan, calls(f, false, func(c ssa.CallInstruction) bool { return callMethodName(c) == "ClusterValue" })...)
+	}
+	for _, c := range scan {
 		args := argsOf(c)
 		if len(args) == 0 {
 			continue
